@@ -363,8 +363,10 @@ impl VariablesState {
                 ValueType::Int(default_val) => *val == default_val,
                 _ => false,
             },
+            // by bits: -0.0 is not the default 0.0 (it prints differently),
+            // and a NaN default is not "changed" on every save
             ValueType::Float(val) => match default_val.value {
-                ValueType::Float(default_val) => *val == default_val,
+                ValueType::Float(default_val) => val.to_bits() == default_val.to_bits(),
                 _ => false,
             },
             ValueType::List(val) => match &default_val.value {
